@@ -3,7 +3,7 @@ Same model/harness as C09 (Model/Conn.v, lib/vf/conn_impl.py).  Every generated 
 (defunct or close) injected at EVERY index; callback invocations are counted on the real object; the model is compared
 at every step."""
 import json
-from vf import core, conn_corr, conn_impl, conn_check
+from vf import core, conn_corr, conn_impl, conn_check, conn_aio
 
 META = {
     'technique': 'Coq theorems over the Conn model (failure steps in any state) + refuted full statement; fault injection at every index of '
@@ -44,7 +44,8 @@ def oracle_c10(h, acts, fail_index):
     for tok in sessions:
         e = h.cp_events.get(tok, [0, 0])
         if e[1] != 1:
-            out.append(('paging-session.close-not-errored' if h.fail_kind == 'close' else 'paging-session.count',
+            out.append(('paging-session.close-not-errored' if h.fail_kind == 'close' else
+                        ('paging-session.not-errored' + ('.no-request-pending' if not pending else '') if e[1] == 0 else 'paging-session.count'),
                         'paging session %r alive at the %s got %d error notifications' % (tok, h.fail_kind, e[1])))
     late = sorted(h.conn.__dict__['_requests_real'].keys())
     if late:
@@ -179,6 +180,18 @@ def run(ctx):
                     hs.append(('directed:' + kind, cfg, seq, h))
                     ctx.count('fault_kind', 'directed-' + kind)
                     judge(ctx, 'directed', cfg, seq, h, 4, kind, raising, control)
+    # a continuous paging session is the ONLY outstanding work (its initial request was answered): every failure cause
+    cp_only = [{'a': 'query', 'r': 1, 'in_cb': [{'a': 'cp_new', 'sess': 101}, {'a': 'return'}]}, {'a': 'respond_tok', 'r': 1},
+               {'a': 'respond', 'i': 0, 'd': 'CpPage'}]
+    cp_plus = cp_only + [{'a': 'query', 'r': 2, 'in_cb': [{'a': 'return'}]}]
+    for base_acts, nm in ((cp_only, 'paging-session-only'), (cp_plus, 'paging-session+request')):
+        for kind in KINDS:
+            for control in ((False, True) if kind.startswith('hb') else (False,)):
+                cfg = dict(n_init=4, max_in_flight=6, thr=3)
+                h, seq = with_fault(cfg, base_acts, len(base_acts), kind, (), control)
+                hs.append(('directed:' + nm + ':' + kind, cfg, seq, h))
+                ctx.count('fault_kind', nm + '-' + h.fail_kind)
+                judge(ctx, 'directed', cfg, seq, h, len(base_acts), kind, (), control)
     # the refutation witness of the send/defunct race, on the real code
     w1 = [{'a': 'query', 'r': 7, 'in_cb': [{'a': 'return'}], 'after_check': [{'a': 'defunct'}]}]
     cfg = dict(n_init=4, max_in_flight=4, thr=2)
@@ -193,10 +206,78 @@ def run(ctx):
                 'owners); in half of the cases some handlers raise when errored; directed 4-request cases on the inline and the helper-thread path; '
                 'non-trivial = at least one request or paging session outstanding at the failure')
     conn_check.compare_with_model(ctx, hs, 'C10')
+    run_aio(ctx)
+
+
+def aio_oracle(name, arg, n, raising):
+    """one scenario on the REAL AsyncioConnection (lib/vf/conn_aio.py) -> (violations, observation, model expression or None)"""
+    a, ops = conn_aio.scenario(name, arg, n, raising)
+    c = a.conn
+    out = []
+    tag = 'asyncio.' + name + ('.' + arg if arg else '')
+    for tok in range(1, n + 1):
+        cnt = a.counts.get(tok, [0, 0, 0])
+        if sum(cnt) != 1 or cnt[1] + cnt[2] != 1:
+            out.append((tag + ('.handler-never-failed' if sum(cnt) == 0 else '.handler-count'),
+                        'AsyncioConnection, %s%s with %d requests outstanding: handler %d was invoked (deliveries, decode errors, ConnectionShutdown) = %r; '
+                        'is_defunct=%s is_closed=%s; reader/writer task died with %r'
+                        % (name, ' (' + arg + ')' if arg else '', n, tok, cnt, c.is_defunct, c.is_closed, a.escaped)))
+    if sorted(c._requests):
+        out.append((tag + '.still-registered', 'AsyncioConnection %s: streams %r still registered after the failure' % (tag, sorted(c._requests))))
+    if not (c.is_defunct or c.is_closed):
+        out.append((tag + '.not-failed', 'AsyncioConnection %s: connection neither defunct nor closed afterwards (task died with %r)' % (tag, a.escaped)))
+    if a.send(99) != 'refused':
+        out.append((tag + '.send-accepted', 'AsyncioConnection %s: send_msg accepted a request after the failure' % tag))
+    obs = {'defunct': bool(c.is_defunct), 'closed': bool(c.is_closed), 'registered': sorted(c._requests), 'counts': a.counts, 'escaped': a.escaped}
+    expr = None
+    if ops is not None:
+        allops = a.ops[:-2] if a.ops[-1].startswith('SendCheck') else a.ops     # drop the probe send (Borrow; SendCheck)
+        allops = [o for o in allops] + ops + ['ErrCall'] * n
+        sh = [a.counts.get(t, [0, 0, 0])[2] for t in range(1, n + 1)]
+        expr = ('let s := run (init 8 7 6) [%s] in Bool.eqb (defunct s) %s && Bool.eqb (closed s) %s && list_eqb (sort (keys (reqs s))) %s '
+                '&& list_eqb (map (fun t => shutdowns t (log s)) %s) %s'
+                % ('; '.join(allops), conn_corr.b(c.is_defunct), conn_corr.b(c.is_closed), conn_corr.zl(sorted(c._requests)),
+                   conn_corr.zl(list(range(1, n + 1))), conn_corr.zl(sh)))
+    a.finish()
+    return out, obs, expr
+
+
+def run_aio(ctx):
+    ctx.trust('AsyncioConnection driven without a socket (lib/vf/conn_aio.py): loop.sock_recv/sock_sendall scripted, event loop stepped by hand')
+    exprs, meta = [], []
+    for name, arg in conn_aio.SCENARIOS:
+        for n in (0, 1, 3):
+            if n == 0 and name in ('send_error', 'decode_error_frame', 'close_then_bad_frame_same_read'):
+                continue        # nothing is written, so no write can fail
+            for raising in ((), (1,), (2, 3)) if n == 3 else ((),):
+                found, obs, expr = aio_oracle(name, arg, n, raising)
+                case = {'aio': [name, arg, n, list(raising)]}
+                ctx.case(['aio', name, arg, n, list(raising)], nontrivial=n > 0, sample={'reactor': 'asyncio', 'scenario': name, 'error': arg, 'requests': n, 'observed': obs})
+                ctx.count('fault_kind', 'asyncio-' + name)
+                for key, what in found:
+                    ctx.violation(key, what, case=case, expected='every outstanding handler failed exactly once, later sends refused', actual=obs,
+                                  kind='history', theorem='C10_deferred_close_then_failure / C10_full_statement')
+                if expr is not None:
+                    exprs.append(expr)
+                    meta.append((case, obs))
+    try:
+        bad = ctx.coq_filter(['Conn'], '(fun b : bool => b)', exprs, shard=60)
+        for i in bad[:5]:
+            ctx.disagreement('model-vs-impl.asyncio', 'Conn model (Close / CloseRun / DefunctFlag ...) differs from the real AsyncioConnection in scenario %r' % (meta[i][0],),
+                             case=meta[i][0], actual=meta[i][1])
+    except RuntimeError as e:
+        ctx.proof_broken.append(('correspondence:Conn-asyncio', str(e)[-600:]))
 
 
 def replay(ctx, rp):
     case = rp.get('case') or {}
+    if case.get('aio'):
+        name, arg, n, raising = case['aio']
+        found, obs, _ = aio_oracle(name, arg, n, tuple(raising))
+        print('observed', obs)
+        print('oracle', found)
+        print(('VIOLATION property=C10 replay=%s' % ctx.replay_path) if found else 'not reproduced')
+        return 1 if found else 0
     if not case.get('actions') or not case.get('fault'):
         print('nothing to replay: %s' % rp.get('theorem'))
         return 1
